@@ -432,11 +432,16 @@ func c16Involution(c *caseCtx) {
 	rev := func() M {
 		return M{"name": "preferenceReversal", "props": M{"ratio": 1.0, "ordering": pick(c.rng, orderings), "randomSeed": c.rng.Intn(1000)}}
 	}
+	base := (&genReq{M: deepCopyM(g.M), method: method}).body()
 	g.M["biases"] = []interface{}{rev(), rev()}
 	d := decide(g.body(), true)
 	c.count("evaluations", 1)
 	if !d.OK {
 		c.count("rejected", 1)
+		// two plain full reversals are valid on every state: a request that is answered without them is answered with them
+		if d0 := decide(base, false); d0.OK {
+			c.violate("reversal-rejected", "the request is answered without biases but refused with two full preference reversals: "+d.Err, M{"request": g.M})
+		}
 		return
 	}
 	if len(d.Trace.Bias) != 2 {
